@@ -113,8 +113,8 @@ OpDelSlice(v, sl) ==
 OpSetItem(v, i, b) ==
     LET L == Filter(raw, v)  n == Len(L)  pos == VPos(raw, v)  ids == NewIds(1) IN
     IF ~ValidIndex(i, n) THEN Refuse("IndexError", v)
-    ELSE IF Views[v].kind = "str"
-         THEN Res("", raw, [val EXCEPT ![L[NormIndex(i, n) + 1]] = b[1][2]], ty, L)
+    ELSE IF Views[v].kind = "str" /\ ty[L[NormIndex(i, n) + 1]] = b[1][1]
+         THEN Res("", raw, [val EXCEPT ![L[NormIndex(i, n) + 1]] = b[1][2]], ty, L)   \* same kind of value: updated in place
          ELSE Res("", [raw EXCEPT ![pos[NormIndex(i, n) + 1]] = ids[1]],
                   WithNew(val, ids, <<b[1][2]>>), WithNew(ty, ids, <<b[1][1]>>), PySetItem(L, i, ids[1]))
 
@@ -130,6 +130,8 @@ OpSetSlice(v, sl, b) ==
         ELSE Res("", PySetSlice(raw, sl, ids), nval, nty, PySetSlice(L, sl, ids))
     ELSE \* filtered views only accept same-length assignment (documented refusal)
         IF Len(r) # Len(b) THEN Refuse("ValueError", v)
+        ELSE IF Views[v].kind = "str" /\ (\E j \in 1..Len(r) : ty[L[r[j] + 1]] # b[j][1])
+             THEN Refuse("SKIP", v)      \* a value of another kind replaces the item: covered by setitem only
         ELSE IF Views[v].kind = "str"
              THEN Res("", raw, [id \in DOMAIN val |->
                                    IF \E j \in 1..Len(r) : L[r[j] + 1] = id
@@ -183,6 +185,7 @@ ViewsOfKind(K) == {v \in ViewNames : Views[v].kind \in K}
 ItemType(v) == CHOOSE t \in Views[v].types : TRUE
 
 Do(op, v, args, res) ==
+    /\ res.exc # "SKIP"
     /\ Len(res.raw) <= MaxLen
     /\ raw' = res.raw /\ val' = res.val /\ ty' = res.ty
     /\ nextId' = nextId + Cardinality(DOMAIN res.ty \ DOMAIN ty)
